@@ -1,1 +1,516 @@
-/- C06 — property theorems (to be written) -/
+/-
+  C06 — kernel results do not depend on the dataflow used to compute them.
+  Property theorems only; helper lemmas live in FtProofs/Lemmas/Kernel*.lean.
+
+  Reading guide.  `C06.run style order ops zr z` (FtModel/Kernel.lean) is the loop nest exactly as the
+  Python text is built from `&` / `Fiber.intersection`, `<<` and `+=`: `order` the loop variables
+  outermost first, `ops` the operand cursors (rank ids = index variables, tree), `zr`/`z` the output's
+  rank ids and tree.  `C06.einsum U order ops zpt q σ0` is the dense mathematical result at the output
+  point `q`: the sum over all assignments of the index variables over the coordinate universe `U`
+  whose output point is `q`, of the product of the operand values; `C06.dsum` is the same with the
+  output variables fixed instead of filtered.  `C06.OpsOK` collects the side conditions of the idiom:
+  operands concordant with the loop order (`swizzled to match`), every loop variable in some operand,
+  well-formed trees with coordinates inside `U`.
+
+  Stage B (generic, any expression / loop order / style): `kernel_denote`, `kernel_dense`,
+  `kernel_content`, `kernel_content_list`, `kernel_content_points`, `style_irrelevant`,
+  `lff_rows_eq_tf`, `loop_order_irrelevant` + `swizzle_same_tensor` (the model of `swizzleRanks`
+  establishes its hypothesis), `tiling_irrelevant` + `splitUniform_tiles` (the model of
+  `splitUniform` establishes its hypothesis).
+  Stage A (instances, readable): `kernel_dot`, `kernel_elementwise`, `kernel_matvec`, `kernel_matvec_ki`,
+  `kernel_row_reduce`, `kernel_col_reduce`, `kernel_matmul_all_orders`.
+-/
+import FtProofs.Lemmas.KernelRun
+import FtProofs.Lemmas.KernelTile
+import FtProofs.Lemmas.KernelSplit
+import FtProofs.Lemmas.KernelSwizzle
+import FtProofs.Lemmas.KernelContent
+set_option linter.unusedSectionVars false
+set_option linter.unusedSimpArgs false
+set_option linter.unusedVariables false
+namespace Ft
+open StrictTotal C06
+
+section
+variable {κ : Type} [LT κ] [DecidableRel (α := κ) (· < ·)] [DecidableEq κ] [StrictTotal κ]
+
+/-! ### Stage B: the generic kernel -/
+
+/-- **the loop nest computes the dense einsum** — for every style of co-iteration, every loop
+    order `order` (no repeated variable), every list of concordant well-formed operands, every
+    output rank list concordant with the loop order and every well-formed initial output `z`:
+    the result is well-formed and its value at *every* point is the initial value plus the dense
+    sum of products. -/
+theorem kernel_denote (style : Style) (U : List κ) (hU : Asc U) (order : List Nat) (ops : List (Cur κ))
+    (zr : List Nat) (z : Tree κ Int zr.length)
+    (hnd : order.Nodup) (hok : OpsOK U order ops) (hzr : zr.Sublist order) (hz : WF zr.length z) :
+    WF zr.length (run style order ops zr z) ∧
+    ∀ (σ0 : Nat → κ) (q : List κ), q.length = zr.length →
+      val (0 : Int) zr.length (run style order ops zr z) q =
+        val (0 : Int) zr.length z q + einsum U order ops (fun σ => zr.map σ) q σ0 :=
+  run_spec style U hU order ops zr z hnd hok hzr hz
+
+/-- … read point-wise: inside the universe the output variables are fixed to the point and the
+    reduction variables are summed; outside the universe nothing is added -/
+theorem kernel_dense (style : Style) (U : List κ) (hU : Asc U) (order : List Nat) (ops : List (Cur κ))
+    (zr : List Nat) (z : Tree κ Int zr.length)
+    (hnd : order.Nodup) (hok : OpsOK U order ops) (hzr : zr.Sublist order) (hz : WF zr.length z)
+    (σ0 : Nat → κ) (q : List κ) (hq : q.length = zr.length) :
+    val (0 : Int) zr.length (run style order ops zr z) q =
+      val (0 : Int) zr.length z q +
+        (if ∀ x ∈ q, x ∈ U then dsum U order zr q (prodVal ops) σ0 else 0) := by
+  rw [(kernel_denote style U hU order ops zr z hnd hok hzr hz).2 σ0 q hq]
+  congr 1
+  unfold einsum
+  by_cases h : ∀ x ∈ q, x ∈ U
+  · rw [if_pos h]
+    exact esum_eq_dsum U hU (prodVal ops) order zr q σ0 hnd hzr hq h
+  · rw [if_neg h]
+    apply esum_outside U (prodVal ops) order zr q σ0 (fun w hw => hzr.subset hw)
+    apply Classical.byContradiction
+    intro hne
+    apply h
+    intro x hx
+    apply Classical.byContradiction
+    intro hxU
+    exact hne ⟨x, hx, hxU⟩
+
+/-- **content of the output = the non-zero entries of the dense result**: starting from the empty
+    output, looking a point up in the content list gives the dense value (0 = absent), and no
+    entry of the content is zero. -/
+theorem kernel_content (style : Style) (U : List κ) (hU : Asc U) (order : List Nat) (ops : List (Cur κ))
+    (zr : List Nat) (hnd : order.Nodup) (hok : OpsOK U order ops) (hzr : zr.Sublist order)
+    (σ0 : Nat → κ) :
+    (∀ q, q.length = zr.length →
+      (clookup (content (0 : Int) zr.length
+        (run style order ops zr (defaultTree (0 : Int) zr.length))) q).getD 0 =
+        einsum U order ops (fun σ => zr.map σ) q σ0) ∧
+    (∀ pv ∈ content (0 : Int) zr.length (run style order ops zr (defaultTree (0 : Int) zr.length)),
+      pv.2 ≠ 0) := by
+  obtain ⟨hw, hv⟩ := kernel_denote style U hU order ops zr (defaultTree (0 : Int) zr.length) hnd hok hzr
+    (wf_defaultTree (0 : Int) zr.length)
+  constructor
+  · intro q hq
+    rw [← val_eq_content (0 : Int) zr.length _ hw q hq, hv σ0 q hq, val_defaultTree]
+    simp
+  · intro pv hpv
+    exact content_ne_default (0 : Int) zr.length _ pv hpv
+
+/-- … as lists (the form the driver evaluates on the implementation's output): for any
+    lexicographically ascending list `cands` of points that contains every point where the dense
+    result is non-zero, the content list of the output is exactly `denseOn … cands`: the candidate
+    points with a non-zero dense value, in order, each with that value. -/
+theorem kernel_content_list (style : Style) (U : List κ) (hU : Asc U) (order : List Nat) (ops : List (Cur κ))
+    (zr : List Nat) (hnd : order.Nodup) (hok : OpsOK U order ops) (hzr : zr.Sublist order)
+    (σ0 : Nat → κ) (cands : List (List κ)) (hc : cands.Pairwise (fun a b => lexLt a b = true))
+    (hlen : ∀ q ∈ cands, q.length = zr.length)
+    (hcov : ∀ q, q.length = zr.length → einsum U order ops (fun σ => zr.map σ) q σ0 ≠ 0 → q ∈ cands) :
+    content (0 : Int) zr.length (run style order ops zr (defaultTree (0 : Int) zr.length)) =
+      denseOn U order ops (fun σ => zr.map σ) σ0 cands := by
+  obtain ⟨hw, hv⟩ := kernel_denote style U hU order ops zr (defaultTree (0 : Int) zr.length) hnd hok hzr
+    (wf_defaultTree (0 : Int) zr.length)
+  apply lexSorted_ext _ _ (content_lexSorted (0 : Int) zr.length _ hw)
+    (denseOn_lexSorted U order ops _ σ0 cands hc)
+  rintro ⟨p, v⟩
+  rw [mem_content_iff (0 : Int) zr.length _ hw p v, mem_denseOn]
+  constructor
+  · rintro ⟨hl, hval, hne⟩
+    rw [hv σ0 p hl, val_defaultTree, Int.zero_add] at hval
+    exact ⟨hcov p hl (hval ▸ hne), hval.symm, hne⟩
+  · rintro ⟨hq, hval, hne⟩
+    have hl := hlen p hq
+    refine ⟨hl, ?_, hne⟩
+    rw [hv σ0 p hl, val_defaultTree, Int.zero_add, hval]
+
+/-- … in particular over all points of the shape: **the content of the output is the list of the
+    non-zero entries of the dense result, in lexicographic order** -/
+theorem kernel_content_points (style : Style) (U : List κ) (hU : Asc U) (order : List Nat) (ops : List (Cur κ))
+    (zr : List Nat) (hnd : order.Nodup) (hok : OpsOK U order ops) (hzr : zr.Sublist order) (σ0 : Nat → κ) :
+    content (0 : Int) zr.length (run style order ops zr (defaultTree (0 : Int) zr.length)) =
+      denseOn U order ops (fun σ => zr.map σ) σ0 (points U zr.length) := by
+  apply kernel_content_list style U hU order ops zr hnd hok hzr σ0 _ (points_sorted U hU zr.length)
+    (points_len U zr.length)
+  intro q hq hne
+  apply mem_points U zr.length q hq
+  intro x hx
+  apply Classical.byContradiction
+  intro hxU
+  exact hne (esum_outside U (prodVal ops) order zr q σ0 (fun w hw => hzr.subset hw) ⟨x, hx, hxU⟩)
+
+/-- **either intersection style**: two-finger (`&`), leader-follower, and leader-follower with the
+    emptiness filter give outputs with the same value at every point -/
+theorem style_irrelevant [Inhabited κ] (s₁ s₂ : Style) (U : List κ) (hU : Asc U) (order : List Nat) (ops : List (Cur κ))
+    (zr : List Nat) (z : Tree κ Int zr.length)
+    (hnd : order.Nodup) (hok : OpsOK U order ops) (hzr : zr.Sublist order) (hz : WF zr.length z)
+    (q : List κ) (hq : q.length = zr.length) :
+    val (0 : Int) zr.length (run s₁ order ops zr z) q = val (0 : Int) zr.length (run s₂ order ops zr z) q := by
+  have σ0 : Nat → κ := fun _ => default
+  rw [(kernel_denote s₁ U hU order ops zr z hnd hok hzr hz).2 σ0 q hq,
+    (kernel_denote s₂ U hU order ops zr z hnd hok hzr hz).2 σ0 q hq]
+
+/-- **zero products filtered**: skipping the leader-follower rows whose follower payload is empty
+    leaves exactly the rows of the two-finger intersection (same coordinates, same payloads) -/
+theorem lff_rows_eq_tf (v : Nat) (parts : List (Cur κ)) (hv : ∀ p ∈ parts, isPart v p = true)
+    (hw : ∀ p ∈ parts, WF p.ranks.length p.t) (hne : parts ≠ []) :
+    coiter .lff parts = coiter .tf parts :=
+  lff_eq_tf v parts (fun p hp => ⟨hv p hp, hw p hp⟩) hne
+
+/-- **every loop order with operands swizzled to match**: two loop nests over permutations of the
+    same loop variables, whose operands denote the same tensors (each in the rank order its loop
+    order needs) and whose outputs have the same ranks (each in its loop order), produce outputs
+    with the same value at every point — for any two styles. -/
+theorem loop_order_irrelevant (s₁ s₂ : Style) (U : List κ) (hU : Asc U)
+    (order₁ order₂ : List Nat) (ops₁ ops₂ : List (Cur κ)) (zr₁ zr₂ : List Nat)
+    (z₁ : Tree κ Int zr₁.length) (z₂ : Tree κ Int zr₂.length)
+    (hperm : order₁.Perm order₂) (hzperm : zr₁.Perm zr₂) (hsame : SameOps ops₁ ops₂)
+    (hnd : order₁.Nodup) (hok₁ : OpsOK U order₁ ops₁) (hok₂ : OpsOK U order₂ ops₂)
+    (hzr₁ : zr₁.Sublist order₁) (hzr₂ : zr₂.Sublist order₂)
+    (hz₁ : WF zr₁.length z₁) (hz₂ : WF zr₂.length z₂) (τ : Nat → κ)
+    (hz : val (0 : Int) zr₁.length z₁ (zr₁.map τ) = val (0 : Int) zr₂.length z₂ (zr₂.map τ)) :
+    val (0 : Int) zr₁.length (run s₁ order₁ ops₁ zr₁ z₁) (zr₁.map τ) =
+      val (0 : Int) zr₂.length (run s₂ order₂ ops₂ zr₂ z₂) (zr₂.map τ) := by
+  have hnd₂ : order₂.Nodup := hperm.nodup_iff.1 hnd
+  rw [(kernel_denote s₁ U hU order₁ ops₁ zr₁ z₁ hnd hok₁ hzr₁ hz₁).2 τ _ (by simp),
+    (kernel_denote s₂ U hU order₂ ops₂ zr₂ z₂ hnd₂ hok₂ hzr₂ hz₂).2 τ _ (by simp), hz]
+  congr 1
+  unfold einsum
+  rw [esum_perm U hperm]
+  apply esum_congr
+  intro σ _
+  have hiff : (zr₁.map σ = zr₁.map τ) ↔ (zr₂.map σ = zr₂.map τ) := by
+    rw [List.map_inj_left, List.map_inj_left]
+    exact ⟨fun h a ha => h a (hzperm.mem_iff.2 ha), fun h a ha => h a (hzperm.mem_iff.1 ha)⟩
+  rw [prodVal_same hsame σ]
+  by_cases h : zr₁.map σ = zr₁.map τ
+  · rw [if_pos h, if_pos (hiff.1 h)]
+  · rw [if_neg h, if_neg (fun h' => h (hiff.2 h'))]
+
+/-- **`swizzleRanks` re-orders without changing the tensor** (model of `Tensor.swizzleRanks`:
+    flatten the top `s` ranks into coordinate tuples, permute each tuple by `guide`, sort, regroup;
+    the `r` ranks below move with their parent).  For a well-formed operand with ranks `top ++ low`
+    and any permutation `guide` of the `s` top positions, the swizzled tree read with ranks
+    `permute guide top ++ low` is well-formed, stays inside the universe and is the `SameTensor`. -/
+theorem swizzle_same_tensor (U : List κ) (r s : Nat) (guide : List Nat) (hg : guide.Perm (List.range s))
+    (top low : List Nat) (htop : top.length = s) (hlow : low.length = r)
+    (t : Tree κ Int (r + s)) (hw : WF (r + s) t) (hin : coordsInB U (r + s) t = true) :
+    WF (r + s) (swizzle (0 : Int) r s guide t) ∧
+    coordsInB U (r + s) (swizzle (0 : Int) r s guide t) = true ∧
+    SameTensor
+      (Cur.ofTree (top ++ low) (r + s) (by simp [htop, hlow]; omega) t)
+      (Cur.ofTree (permute guide top ++ low) (r + s) (by
+        have hr : ∀ g ∈ guide, g < top.length := fun g hgm => htop ▸ List.mem_range.1 (hg.mem_iff.1 hgm)
+        rw [List.length_append, permute_length guide top hr, hg.length_eq, List.length_range, hlow]; omega)
+        (swizzle (0 : Int) r s guide t)) :=
+  ⟨(swizzle_spec (0 : Int) r s guide hg t hw).1, swizzle_in U r s guide hg t hw hin,
+   swizzle_sameTensor r s guide hg top low htop hlow t hw⟩
+
+/-! ### every uniform tiling, applied consistently to the operands -/
+
+section tiling
+
+/-- **tiling is irrelevant.**  Index variable `v` is tiled with `step`: a new loop variable `v1`
+    (the upper half) is added anywhere in the loop order (`order'` is any permutation of
+    `v1 :: order`), every operand that has rank `v` is replaced by its tiled version (`Tiled`: value
+    `A[.., x, ..]` at `(.., x1, x, ..)` iff `x1 = x / step * step`, else 0 — what `splitUniform`
+    produces, `splitUniform_tiles`), the other operands are unchanged, and the output gains rank `v1`
+    iff it has rank `v`.  Then, starting from empty outputs, the tiled loop nest and the original loop
+    nest agree at every point (the tiled output is 0 where the upper coordinate is not the tile of
+    the lower one) — for any two styles and any placement of the two halves in the loop order. -/
+theorem tiling_irrelevant (s s' : Style) (step : Int) (U : List Int) (hU : Asc U)
+    (htile : ∀ x ∈ U, tileOf step x ∈ U) (v v1 : Nat)
+    (order order' : List Nat) (ops ops' : List (Cur Int)) (zr zr' : List Nat)
+    (hnd : order.Nodup) (hv : v ∈ order) (hv1 : v1 ∉ order) (hperm : order'.Perm (v1 :: order))
+    (hok : OpsOK U order ops) (hok' : OpsOK U order' ops')
+    (hzr : zr.Sublist order) (hzr' : zr'.Sublist order')
+    (hzmem : ∀ w, w ∈ zr' ↔ (w ∈ zr ∨ (w = v1 ∧ v ∈ zr)))
+    (h1 : TiledOps step v v1 ops ops') (h2 : AnyTiled step v v1 ops ops') (τ : Nat → Int) :
+    val (0 : Int) zr'.length (run s' order' ops' zr' (defaultTree (0 : Int) zr'.length)) (zr'.map τ) =
+      if (v ∈ zr → τ v1 = tileOf step (τ v)) then
+        val (0 : Int) zr.length (run s order ops zr (defaultTree (0 : Int) zr.length)) (zr.map τ)
+      else 0 := by
+  have hnd' : order'.Nodup := hperm.nodup_iff.2 (List.nodup_cons.2 ⟨hv1, hnd⟩)
+  rw [(kernel_denote s' U hU order' ops' zr' _ hnd' hok' hzr' (wf_defaultTree (0 : Int) zr'.length)).2 τ _ (by simp),
+    (kernel_denote s U hU order ops zr _ hnd hok hzr (wf_defaultTree (0 : Int) zr.length)).2 τ _ (by simp),
+    val_defaultTree, val_defaultTree, Int.zero_add, Int.zero_add]
+  exact einsum_tiled step U hU htile v v1 order order' ops ops' zr zr' hv hv1 hperm
+    (fun w hw => hzr.subset hw) hzmem (fun c hc h => hv1 ((hok.conc c hc).subset h)) h1 h2 τ τ
+
+/-- **`splitUniform` produces the tiled operand** (model of `Tensor.splitUniform(step, rankid=v)`
+    with halo 0 and absolute coordinates, FtModel.Split / C08): for a well-formed operand with ranks
+    `pre ++ v :: post` whose coordinates lie inside the active range `[as, ae)` of the split rank
+    (a universe closed under the tile map), the split tree is well-formed, stays inside the universe
+    and, read with ranks `pre ++ v1 :: v :: post`, is `Tiled`. -/
+theorem splitUniform_tiles (step as ae : Int) (hs : 0 < step) (hact : as < ae) (U : List Int)
+    (hUr : ∀ x ∈ U, as ≤ x ∧ x < ae) (htile : ∀ x ∈ U, tileOf step x ∈ U) (pre post : List Nat) (v v1 : Nat)
+    (t : Tree Int Int (post.length + 1 + pre.length)) (r : Tree Int Int (post.length + 2 + pre.length))
+    (hw : WF _ t) (hin : coordsInB U _ t = true)
+    (hr : splitAt { op := .uniform step, act := some (as, ae) } (0 : Int) post.length pre.length t = some r) :
+    WF _ r ∧ coordsInB U _ r = true ∧
+    Tiled step v v1
+      (Cur.ofTree (pre ++ v :: post) (post.length + 1 + pre.length) (by simp; omega) t)
+      (Cur.ofTree (pre ++ v1 :: v :: post) (post.length + 2 + pre.length) (by simp; omega) r) :=
+  ⟨(splitAt_ok step as ae hs hact U hUr htile post.length pre.length t r hw hin hr).1,
+   (splitAt_ok step as ae hs hact U hUr htile post.length pre.length t r hw hin hr).2,
+   splitUniform_tiled step as ae hs hact U hUr pre post v v1 t r hw hin hr⟩
+
+end tiling
+
+/-! ### Stage A: the named kernels, read off the generic theorem
+
+  Index variables are numbered 0, 1, 2; `U` is the coordinate universe of every rank (a strictly
+  ascending list containing all stored coordinates); the statements are for points inside `U`
+  (outside, nothing is added: `kernel_dense`). -/
+
+section stageA
+variable [Inhabited κ] (style : Style) (U : List κ) (hU : Asc U)
+include hU
+
+/-- **dot product** `z += Σ_k a_k·b_k` -/
+theorem kernel_dot (a b : Tree κ Int 1) (z : Int) (ha : WF 1 a) (hb : WF 1 b)
+    (haU : coordsInB U 1 a = true) (hbU : coordsInB U 1 b = true) :
+    val (0 : Int) 0 (run style [0] [⟨[0], a⟩, ⟨[0], b⟩] [] z) [] =
+      z + (U.map (fun k => val (0 : Int) 1 a [k] * val (0 : Int) 1 b [k])).sum := by
+  have hok : OpsOK U [0] [(⟨[0], a⟩ : Cur κ), ⟨[0], b⟩] :=
+    opsOK_of_shape U _ _ rfl (by
+      intro c hc
+      simp only [List.mem_cons, List.mem_nil_iff, or_false] at hc
+      rcases hc with rfl | rfl
+      · exact ⟨ha, haU⟩
+      · exact ⟨hb, hbU⟩)
+  refine (kernel_dense style U hU [0] _ [] z (by decide) hok (by decide) trivial (fun _ => default) [] rfl).trans ?_
+  simp [dsum, prodVal, prodL, cval, upd, val]
+
+/-- **element-wise product** `z_i += a_i·b_i` -/
+theorem kernel_elementwise (a b z : Tree κ Int 1) (ha : WF 1 a) (hb : WF 1 b) (hz : WF 1 z)
+    (haU : coordsInB U 1 a = true) (hbU : coordsInB U 1 b = true) (i : κ) (hi : i ∈ U) :
+    val (0 : Int) 1 (run style [0] [⟨[0], a⟩, ⟨[0], b⟩] [0] z) [i] =
+      val (0 : Int) 1 z [i] + val (0 : Int) 1 a [i] * val (0 : Int) 1 b [i] := by
+  have hok : OpsOK U [0] [(⟨[0], a⟩ : Cur κ), ⟨[0], b⟩] :=
+    opsOK_of_shape U _ _ rfl (by
+      intro c hc
+      simp only [List.mem_cons, List.mem_nil_iff, or_false] at hc
+      rcases hc with rfl | rfl
+      · exact ⟨ha, haU⟩
+      · exact ⟨hb, hbU⟩)
+  refine (kernel_dense style U hU [0] _ [0] z (by decide) hok (by decide) hz (fun _ => default) [i] rfl).trans ?_
+  congr 1
+  rw [if_pos (by intro x hx; simp at hx; rcases hx with rfl; assumption)]
+  simp [dsum, prodVal, prodL, cval, upd]
+
+/-- **matrix-vector** `z_i += Σ_k A_ik·b_k`, loop order (i, k) -/
+theorem kernel_matvec (A : Tree κ Int 2) (b z : Tree κ Int 1) (hA : WF 2 A) (hb : WF 1 b) (hz : WF 1 z)
+    (hAU : coordsInB U 2 A = true) (hbU : coordsInB U 1 b = true) (i : κ) (hi : i ∈ U) :
+    val (0 : Int) 1 (run style [0, 1] [⟨[0, 1], A⟩, ⟨[1], b⟩] [0] z) [i] =
+      val (0 : Int) 1 z [i] + (U.map (fun k => val (0 : Int) 2 A [i, k] * val (0 : Int) 1 b [k])).sum := by
+  have hok : OpsOK U [0, 1] [(⟨[0, 1], A⟩ : Cur κ), ⟨[1], b⟩] :=
+    opsOK_of_shape U _ _ rfl (by
+      intro c hc
+      simp only [List.mem_cons, List.mem_nil_iff, or_false] at hc
+      rcases hc with rfl | rfl
+      · exact ⟨hA, hAU⟩
+      · exact ⟨hb, hbU⟩)
+  refine (kernel_dense style U hU [0, 1] _ [0] z (by decide) hok (by decide) hz (fun _ => default) [i] rfl).trans ?_
+  congr 1
+  rw [if_pos (by intro x hx; simp at hx; rcases hx with rfl; assumption)]
+  simp [dsum, prodVal, prodL, cval, upd]
+
+/-- … and in loop order (k, i) on the transposed matrix (`At` has ranks (k, i)): the populate of the
+    output is now *inside* the reduction loop -/
+theorem kernel_matvec_ki (At : Tree κ Int 2) (b z : Tree κ Int 1) (hA : WF 2 At) (hb : WF 1 b) (hz : WF 1 z)
+    (hAU : coordsInB U 2 At = true) (hbU : coordsInB U 1 b = true) (i : κ) (hi : i ∈ U) :
+    val (0 : Int) 1 (run style [1, 0] [⟨[1, 0], At⟩, ⟨[1], b⟩] [0] z) [i] =
+      val (0 : Int) 1 z [i] + (U.map (fun k => val (0 : Int) 2 At [k, i] * val (0 : Int) 1 b [k])).sum := by
+  have hok : OpsOK U [1, 0] [(⟨[1, 0], At⟩ : Cur κ), ⟨[1], b⟩] :=
+    opsOK_of_shape U _ _ rfl (by
+      intro c hc
+      simp only [List.mem_cons, List.mem_nil_iff, or_false] at hc
+      rcases hc with rfl | rfl
+      · exact ⟨hA, hAU⟩
+      · exact ⟨hb, hbU⟩)
+  refine (kernel_dense style U hU [1, 0] _ [0] z (by decide) hok (by decide) hz (fun _ => default) [i] rfl).trans ?_
+  congr 1
+  rw [if_pos (by intro x hx; simp at hx; rcases hx with rfl; assumption)]
+  simp [dsum, prodVal, prodL, cval, upd]
+
+/-- **row reduction** `z_i += Σ_k A_ik` -/
+theorem kernel_row_reduce (A : Tree κ Int 2) (z : Tree κ Int 1) (hA : WF 2 A) (hz : WF 1 z)
+    (hAU : coordsInB U 2 A = true) (i : κ) (hi : i ∈ U) :
+    val (0 : Int) 1 (run style [0, 1] [⟨[0, 1], A⟩] [0] z) [i] =
+      val (0 : Int) 1 z [i] + (U.map (fun k => val (0 : Int) 2 A [i, k])).sum := by
+  have hok : OpsOK U [0, 1] [(⟨[0, 1], A⟩ : Cur κ)] :=
+    opsOK_of_shape U _ _ rfl (by
+      intro c hc
+      simp only [List.mem_cons, List.mem_nil_iff, or_false] at hc
+      rcases hc with rfl
+      exact ⟨hA, hAU⟩)
+  refine (kernel_dense style U hU [0, 1] _ [0] z (by decide) hok (by decide) hz (fun _ => default) [i] rfl).trans ?_
+  congr 1
+  rw [if_pos (by intro x hx; simp at hx; rcases hx with rfl; assumption)]
+  simp [dsum, prodVal, prodL, cval, upd]
+
+/-- **column reduction** `z_k += Σ_i A_ik` on the matrix as stored (ranks (i, k)): the output is
+    populated inside the reduction loop, so sums that cancel are removed again -/
+theorem kernel_col_reduce (A : Tree κ Int 2) (z : Tree κ Int 1) (hA : WF 2 A) (hz : WF 1 z)
+    (hAU : coordsInB U 2 A = true) (k : κ) (hk : k ∈ U) :
+    val (0 : Int) 1 (run style [0, 1] [⟨[0, 1], A⟩] [1] z) [k] =
+      val (0 : Int) 1 z [k] + (U.map (fun i => val (0 : Int) 2 A [i, k])).sum := by
+  have hok : OpsOK U [0, 1] [(⟨[0, 1], A⟩ : Cur κ)] :=
+    opsOK_of_shape U _ _ rfl (by
+      intro c hc
+      simp only [List.mem_cons, List.mem_nil_iff, or_false] at hc
+      rcases hc with rfl
+      exact ⟨hA, hAU⟩)
+  refine (kernel_dense style U hU [0, 1] _ [1] z (by decide) hok (by decide) hz (fun _ => default) [k] rfl).trans ?_
+  congr 1
+  rw [if_pos (by intro x hx; simp at hx; rcases hx with rfl; assumption)]
+  simp [dsum, prodVal, prodL, cval, upd]
+
+/-- **matrix-matrix product in all six loop orders** `Z_ij += Σ_k A_ik·B_kj`.  `A`/`At` are the
+    matrix with ranks (i,k)/(k,i), `B`/`Bt` with ranks (k,j)/(j,k), the outputs `Z`/`Zt` with ranks
+    (i,j)/(j,i) — each loop order uses the layouts concordant with it; the transposed layouts
+    denote the same matrices.  All six nests add the same dense product. -/
+theorem kernel_matmul_all_orders (A At B Bt Z Zt : Tree κ Int 2)
+    (hA : WF 2 A) (hAt : WF 2 At) (hB : WF 2 B) (hBt : WF 2 Bt) (hZ : WF 2 Z) (hZt : WF 2 Zt)
+    (hAU : coordsInB U 2 A = true) (hAtU : coordsInB U 2 At = true)
+    (hBU : coordsInB U 2 B = true) (hBtU : coordsInB U 2 Bt = true)
+    (tA : ∀ i k, val (0 : Int) 2 At [k, i] = val (0 : Int) 2 A [i, k])
+    (tB : ∀ k j, val (0 : Int) 2 Bt [j, k] = val (0 : Int) 2 B [k, j])
+    (i j : κ) (hi : i ∈ U) (hj : j ∈ U) :
+    let dense := (U.map (fun k => val (0 : Int) 2 A [i, k] * val (0 : Int) 2 B [k, j])).sum
+    -- (i, k, j)
+    val (0 : Int) 2 (run style [0, 1, 2] [⟨[0, 1], A⟩, ⟨[1, 2], B⟩] [0, 2] Z) [i, j] = val (0 : Int) 2 Z [i, j] + dense ∧
+    -- (i, j, k)
+    val (0 : Int) 2 (run style [0, 2, 1] [⟨[0, 1], A⟩, ⟨[2, 1], Bt⟩] [0, 2] Z) [i, j] = val (0 : Int) 2 Z [i, j] + dense ∧
+    -- (k, i, j)
+    val (0 : Int) 2 (run style [1, 0, 2] [⟨[1, 0], At⟩, ⟨[1, 2], B⟩] [0, 2] Z) [i, j] = val (0 : Int) 2 Z [i, j] + dense ∧
+    -- (k, j, i)
+    val (0 : Int) 2 (run style [1, 2, 0] [⟨[1, 0], At⟩, ⟨[1, 2], B⟩] [2, 0] Zt) [j, i] = val (0 : Int) 2 Zt [j, i] + dense ∧
+    -- (j, i, k)
+    val (0 : Int) 2 (run style [2, 0, 1] [⟨[0, 1], A⟩, ⟨[2, 1], Bt⟩] [2, 0] Zt) [j, i] = val (0 : Int) 2 Zt [j, i] + dense ∧
+    -- (j, k, i)
+    val (0 : Int) 2 (run style [2, 1, 0] [⟨[1, 0], At⟩, ⟨[2, 1], Bt⟩] [2, 0] Zt) [j, i] = val (0 : Int) 2 Zt [j, i] + dense := by
+  intro dense
+  have two : ∀ (X Y : Cur κ) (hX : WF X.ranks.length X.t ∧ coordsInB U X.ranks.length X.t = true)
+      (hY : WF Y.ranks.length Y.t ∧ coordsInB U Y.ranks.length Y.t = true),
+      ∀ c ∈ [X, Y], WF c.ranks.length c.t ∧ coordsInB U c.ranks.length c.t = true := by
+    intro X Y hX hY c hc
+    simp only [List.mem_cons, List.mem_nil_iff, or_false] at hc
+    rcases hc with rfl | rfl
+    · exact hX
+    · exact hY
+  have inU2 : ∀ x y : κ, x ∈ U → y ∈ U → ∀ w ∈ [x, y], w ∈ U := by
+    intro x y hx hy w hw
+    simp only [List.mem_cons, List.mem_nil_iff, or_false] at hw
+    rcases hw with rfl | rfl <;> assumption
+  refine ⟨?_, ?_, ?_, ?_, ?_, ?_⟩
+  · refine (kernel_dense style U hU [0, 1, 2] _ [0, 2] Z (by decide)
+      (opsOK_of_shape U _ _ rfl (two ⟨[0, 1], A⟩ ⟨[1, 2], B⟩ ⟨hA, hAU⟩ ⟨hB, hBU⟩)) (by decide) hZ
+      (fun _ => default) [i, j] rfl).trans ?_
+    congr 1
+    rw [if_pos (inU2 i j hi hj)]
+    simp [dsum, prodVal, prodL, cval, upd, dense]
+  · refine (kernel_dense style U hU [0, 2, 1] _ [0, 2] Z (by decide)
+      (opsOK_of_shape U _ _ rfl (two ⟨[0, 1], A⟩ ⟨[2, 1], Bt⟩ ⟨hA, hAU⟩ ⟨hBt, hBtU⟩)) (by decide) hZ
+      (fun _ => default) [i, j] rfl).trans ?_
+    congr 1
+    rw [if_pos (inU2 i j hi hj)]
+    simp [dsum, prodVal, prodL, cval, upd, dense, tB]
+  · refine (kernel_dense style U hU [1, 0, 2] _ [0, 2] Z (by decide)
+      (opsOK_of_shape U _ _ rfl (two ⟨[1, 0], At⟩ ⟨[1, 2], B⟩ ⟨hAt, hAtU⟩ ⟨hB, hBU⟩)) (by decide) hZ
+      (fun _ => default) [i, j] rfl).trans ?_
+    congr 1
+    rw [if_pos (inU2 i j hi hj)]
+    simp [dsum, prodVal, prodL, cval, upd, dense, tA]
+  · refine (kernel_dense style U hU [1, 2, 0] _ [2, 0] Zt (by decide)
+      (opsOK_of_shape U _ _ rfl (two ⟨[1, 0], At⟩ ⟨[1, 2], B⟩ ⟨hAt, hAtU⟩ ⟨hB, hBU⟩)) (by decide) hZt
+      (fun _ => default) [j, i] rfl).trans ?_
+    congr 1
+    rw [if_pos (inU2 j i hj hi)]
+    simp [dsum, prodVal, prodL, cval, upd, dense, tA]
+  · refine (kernel_dense style U hU [2, 0, 1] _ [2, 0] Zt (by decide)
+      (opsOK_of_shape U _ _ rfl (two ⟨[0, 1], A⟩ ⟨[2, 1], Bt⟩ ⟨hA, hAU⟩ ⟨hBt, hBtU⟩)) (by decide) hZt
+      (fun _ => default) [j, i] rfl).trans ?_
+    congr 1
+    rw [if_pos (inU2 j i hj hi)]
+    simp [dsum, prodVal, prodL, cval, upd, dense, tB]
+  · refine (kernel_dense style U hU [2, 1, 0] _ [2, 0] Zt (by decide)
+      (opsOK_of_shape U _ _ rfl (two ⟨[1, 0], At⟩ ⟨[2, 1], Bt⟩ ⟨hAt, hAtU⟩ ⟨hBt, hBtU⟩)) (by decide) hZt
+      (fun _ => default) [j, i] rfl).trans ?_
+    congr 1
+    rw [if_pos (inU2 j i hj hi)]
+    simp [dsum, prodVal, prodL, cval, upd, dense, tA, tB]
+
+end stageA
+
+end
+
+/-! ### non-vacuity: the hypotheses hold for non-trivial programs, and the model computes -/
+section
+private def exU : List Int := [0, 1, 2]
+/-- A (ranks i,k) with an explicit zero and an empty row, B (ranks k,j) -/
+private def exA : Tree Int Int 2 :=
+  (show List (Int × Tree Int Int 1) from
+    [(0, (show List (Int × Int) from [(0, 1), (1, 2)])), (1, (show List (Int × Int) from [])),
+     (2, (show List (Int × Int) from [(1, 0), (2, -1)]))])
+private def exB : Tree Int Int 2 :=
+  (show List (Int × Tree Int Int 1) from
+    [(0, (show List (Int × Int) from [(0, 3)])), (1, (show List (Int × Int) from [(0, -1), (2, 5)])),
+     (2, (show List (Int × Int) from [(2, 5)]))])
+private def exBt : Tree Int Int 2 :=
+  (show List (Int × Tree Int Int 1) from
+    [(0, (show List (Int × Int) from [(0, 3), (1, -1)])), (2, (show List (Int × Int) from [(1, 5), (2, 5)]))])
+private def exOps : List (Cur Int) := [⟨[0, 1], exA⟩, ⟨[1, 2], exB⟩]
+
+example : Asc exU := by unfold Asc exU; decide
+example : OpsOK exU [0, 1, 2] exOps :=
+  opsOK_of_shape exU _ _ rfl (by
+    intro c hc
+    simp only [exOps, List.mem_cons, List.mem_nil_iff, or_false] at hc
+    rcases hc with rfl | rfl
+    · exact ⟨(wfB_iff 2 exA).1 (by decide), by decide⟩
+    · exact ⟨(wfB_iff 2 exB).1 (by decide), by decide⟩)
+example : ([0, 2] : List Nat).Sublist [0, 1, 2] := by decide
+
+-- Z = A·B computed by the loop nest in two loop orders and three styles; row 2 cancels: 0·(-1)… and
+-- (2,2): -1·5 = -5; (0,0): 1·3 + 2·(-1) = 1; (0,2): 2·5 = 10
+#guard content (0 : Int) 2 (run .tf [0, 1, 2] exOps [0, 2] (defaultTree 0 2)) == [([0, 0], 1), ([0, 2], 10), ([2, 2], -5)]
+#guard content (0 : Int) 2 (run .lf [0, 1, 2] exOps [0, 2] (defaultTree 0 2)) == [([0, 0], 1), ([0, 2], 10), ([2, 2], -5)]
+#guard content (0 : Int) 2 (run .lff [0, 1, 2] exOps [0, 2] (defaultTree 0 2)) == [([0, 0], 1), ([0, 2], 10), ([2, 2], -5)]
+#guard content (0 : Int) 2 (run .tf [0, 2, 1] [⟨[0, 1], exA⟩, ⟨[2, 1], exBt⟩] [0, 2] (defaultTree 0 2))
+  == [([0, 0], 1), ([0, 2], 10), ([2, 2], -5)]
+#guard einsum exU [0, 1, 2] exOps (fun σ => [0, 2].map σ) [0, 2] (fun _ => 0) == 10
+#guard dsum exU [0, 1, 2] [0, 2] [0, 0] (prodVal exOps) (fun _ => 0) == 1
+-- the content list is the dense result over all points of the shape (kernel_content_list)
+example : (points exU 2).Pairwise (fun a b => lexLt a b = true) := by decide
+#guard content (0 : Int) 2 (run .lf [0, 1, 2] exOps [0, 2] (defaultTree 0 2))
+  == denseOn exU [0, 1, 2] exOps (fun σ => [0, 2].map σ) (fun _ => 0) (points exU 2)
+-- swizzling B (ranks k,j) with guide [1,0] gives Bt (ranks j,k): the same tensor
+example : SameTensor (Cur.ofTree [1, 2] (0 + 2) rfl exB) (Cur.ofTree [2, 1] (0 + 2) rfl exBt) := by
+  have h := (swizzle_same_tensor exU 0 2 [1, 0] (by decide) [1, 2] [] rfl rfl exB
+    ((wfB_iff 2 exB).1 (by decide)) (by decide)).2.2
+  have e : swizzle (0 : Int) 0 2 [1, 0] exB = exBt := by decide
+  rw [e] at h
+  exact h
+-- the swizzle model turns B (k,j) into Bt (j,k)
+#guard decide (swizzle (0 : Int) 0 2 [1, 0] (show Tree Int Int (0 + 2) from exB) = exBt)
+-- tiling: a = [1, ·, 3, -1] split with step 2 over the shape [0, 4)
+private def exa : Tree Int Int (0 + 1 + 0) := (show List (Int × Int) from [(0, 1), (2, 3), (3, -1)])
+private def exaT : Tree Int Int (0 + 2 + 0) :=
+  (show List (Int × Tree Int Int 1) from
+    [(0, (show List (Int × Int) from [(0, 1)])), (2, (show List (Int × Int) from [(2, 3), (3, -1)]))])
+private def exb : Tree Int Int 1 := (show List (Int × Int) from [(2, 5), (3, 1)])
+example : ∀ x ∈ ([0, 1, 2, 3] : List Int), tileOf 2 x ∈ ([0, 1, 2, 3] : List Int) := by decide
+example : splitAt { op := .uniform 2, act := some (0, 4) } (0 : Int) 0 0 exa = some exaT := by decide
+example : Tiled 2 0 1 (Cur.ofTree [0] 1 rfl exa) (Cur.ofTree [1, 0] 2 rfl exaT) :=
+  (splitUniform_tiles 2 0 4 (by decide) (by decide) [0, 1, 2, 3] (by decide) (by decide) [] [] 0 1 exa exaT
+    ((wfB_iff 1 exa).1 (by decide)) (by decide) (by decide)).2.2
+-- dot product 3·5 + (-1)·1 = 14, untiled and tiled (both placements of the halves)
+#guard run .tf [0] [⟨[0], exa⟩, ⟨[0], exb⟩] [] (0 : Int) == (14 : Int)
+#guard run .tf [1, 0] [⟨[1, 0], exaT⟩, ⟨[0], exb⟩] [] (0 : Int) == (14 : Int)
+#guard run .lf [0, 1] [⟨[0, 1], swizzle (0 : Int) 0 2 [1, 0] exaT⟩, ⟨[0], exb⟩] [] (0 : Int) == (14 : Int)
+-- the leader-follower rows contain the zero products, the filter removes exactly those
+#guard (coiter .lf [(⟨[1], (show List (Int × Int) from [(0, 1), (1, 2)])⟩ : Cur Int), ⟨[1], (show List (Int × Int) from [(1, 5)])⟩]).length == 2
+#guard (coiter .lff [(⟨[1], (show List (Int × Int) from [(0, 1), (1, 2)])⟩ : Cur Int), ⟨[1], (show List (Int × Int) from [(1, 5)])⟩]).length == 1
+end
+
+end Ft
